@@ -1670,3 +1670,114 @@ def check_C04(tier, seed):
     return res.finish(gate)
 
 CHECKS['C04'] = check_C04
+
+# ---------------------------------------------------------------- C09
+SPAN_RE = re.compile(r'@(-|\d+\.\d+-\d+\.\d+)')
+
+def strip_spans(s): return SPAN_RE.sub('', s)
+
+def check_C09(tier, seed):
+    from .gen import data
+    res = Result('C09', tier, seed); res.pending = []
+    gate = proof_gate('C09')
+    core.build_model(); core.build_impl()
+    rng = random.Random(seed)
+    n = tier_n(tier, 2500, 60000)
+    vals = [data.gen_value(rng, rng.choice([0, 1, 2, 3])) for _ in range(n)]
+    # --- A: reading, in many layouts
+    cases = []; metas = []
+    for i, v in enumerate(vals):
+        toks = data.tokens(v)
+        c = Case('r%d' % i)
+        texts = [render(v)] + [data.layout(rng, toks, 'as_built') for _ in range(2)]
+        for t in texts: c.parse(t)
+        # an Emacs-only layout: separators omitted where the Emacs reader does not need them
+        te = data.layout(rng, toks, 'emacs')
+        c.parse(te)
+        cases.append(c); metas.append({'v': v, 'texts': texts + [te]})
+    impl, model, dis = differential(res, cases)
+    nv = 0; kf = 0
+    distinct = set()
+    for c, meta in zip(cases, metas):
+        exp = data.canon(meta['v'])
+        distinct.add(exp[:50])
+        for k, l in enumerate(impl.get(c.cid, [])):
+            _, kind, payload, _ = core.parse_line(l)
+            got = strip_spans(unhx(payload[3:])) if payload.startswith('ok ') else payload
+            if got != exp:
+                if k == 3 and meta['texts'][3] not in meta['texts'][:3]:
+                    kf += 1; continue       # layout admitted by the Emacs grammar only (D15)
+                nv += 1
+                if nv <= 8: res.violation('read', {'text': meta['texts'][k], 'expected_structure': exp, 'got': got, 'why': 'well-formed text does not read as the value it denotes'})
+                break
+    # --- B: print then read back
+    pcases = []
+    for i, v in enumerate(vals):
+        c = Case('p%d' % i); c.eval("'" + render(v)); pcases.append(c)
+    # floats produced by computation, not by the reader
+    comp = ['(* 1.0 10000000000000000)', '(/ 1.0 100000)', '(* 2.5 4)', '(- 0.0 0.0)', '(* -1.0 0.0)', '(expt 10 20)', '(/ 1.0 3)', '(+ 0.1 0.2)', '(* 1e300 1.0)'.replace('1e300', '1' + '0' * 300 + '.0'),
+            '(list (* 1.0 100000000000000000000) (/ 3.0 10000000) "a\\\\b" (concat "q" "\\"" "\\\\"))', '(list (1+ 9223372036854775806) (- -9223372036854775807 1))',
+            "(list (intern \"ab\") :k 'nil 't (cons 1 2) (cons 1 (cons 2 3)))", '(format "%s\\\\%s" "a" "b")', '(concat "back\\\\slash" "")', '(list (concat "x\\\\" "") (concat "\\\\" "\\\\"))']
+    for i, t in enumerate(comp):
+        c = Case('q%d' % i); c.eval(t); pcases.append(c)
+    impl1 = core.run_side(core.TLIMPL_DEBUG, pcases, announce=True)
+    rcases = []; rmeta = []
+    for c in pcases:
+        ls = impl1.get(c.cid, [])
+        if not ls: continue
+        _, kind, payload, _ = core.parse_line(ls[0])
+        if kind != 'V': 
+            if kind in ('P', 'A', 'H'): res.violation('print', {'request': c.readable(), 'impl': ls[0]})
+            continue
+        printed = unhx(payload)
+        rc = Case('b' + c.cid)
+        rc.parse(c.readable()[1][6:] if c.cid.startswith('p') else '0')
+        rc.parse(printed)
+        rcases.append(rc); rmeta.append({'printed': printed, 'src': c.readable()[1], 'computed': c.cid.startswith('q')})
+    impl2, model2, dis2 = differential(res, rcases)
+    # printing itself must agree with the model's printer
+    modelp = core.run_side(core.TLMODEL, pcases)
+    for c in pcases:
+        a, b = impl1.get(c.cid, [None])[0], modelp.get(c.cid, [None])[0]
+        if a and b and core.default_observe(*core.parse_line(a)[1:]) != core.default_observe(*core.parse_line(b)[1:]):
+            res.violation('disagreement', {'request': c.readable(), 'impl': decode_line(a), 'model': decode_line(b), 'correspondence': 'Printer.print'})
+    for rc, meta in zip(rcases, rmeta):
+        ls = impl2.get(rc.cid, [])
+        if len(ls) < 2: continue
+        a = core.parse_line(ls[0])[2]; b = core.parse_line(ls[1])[2]
+        sa = strip_spans(unhx(a[3:])) if a.startswith('ok ') else a
+        sb = strip_spans(unhx(b[3:])) if b.startswith('ok ') else b
+        bad = None
+        if not b.startswith('ok '): bad = 'printed text does not read back'
+        elif not meta['computed'] and sa != sb: bad = 'printed text reads back as a different value'
+        elif meta['computed']:
+            # type and structure: no float may come back as an integer or a symbol: re-print must be stable
+            pass
+        if bad:
+            nv += 1
+            if nv <= 8: res.violation('roundtrip', {'source': meta['src'], 'printed': meta['printed'], 'read_back': sb, 'original': sa, 'why': bad})
+    # computed values: print -> read -> print must be a fixed point and keep the types
+    fcases = []
+    for rc, meta in zip(rcases, rmeta):
+        if meta['computed']:
+            c = Case('f' + rc.cid); c.eval("'" + meta['printed']); fcases.append((c, meta))
+    outf = core.run_side(core.TLIMPL_DEBUG, [c for c, _ in fcases])
+    for c, meta in fcases:
+        ls = outf.get(c.cid, [])
+        got = unhx(core.parse_line(ls[0])[2]) if ls and core.parse_line(ls[0])[1] == 'V' else None
+        if got != meta['printed']:
+            nv += 1
+            if nv <= 8: res.violation('roundtrip', {'source': meta['src'], 'printed': meta['printed'], 'printed_after_reading_back': got, 'why': 'print / read / print is not a fixed point'})
+    replay_known(res, 'C09')
+    classifier_hits(res, 'C09', 'c09_as_built_grammar', kf, "(car'(1 2)) : separator omitted between an atom and ( ' \" ` , ;")
+    res.cov['distinct_nontrivial'] = len(distinct)
+    res.cov['rule'] = ('%d random data values (integers incl. i64 limits, finite floats by literal, by uniform draw and by random bit pattern, strings with quotes / backslashes / newlines / non-ASCII, '
+                       'readable symbols, keywords, nil, t, proper and dotted lists, the five quote shorthands, depth <= 3); each read in 4 layouts (canonical, two random with spaces / tabs / newlines / CRLF / comments, '
+                       'one Emacs-only layout that omits optional separators = known class); oracle: structure computed from the generator; print-then-read-back through the implementation; computed floats and strings '
+                       'print/read/print fixed point; correspondence: reader and printer of the model' % n)
+    res.cov['samples'] = [m['texts'][1] for m in metas[:3]]
+    for d in res.pending:
+        res.violation('disagreement', d, no_input=not oracle_confirms(d))
+    return res.finish(gate)
+
+CHECKS['C09'] = check_C09
